@@ -66,7 +66,7 @@ fn run_case(case: &C05Case, force_single: bool, obs: &mut Obs) -> Vec<(Vec<Value
 	let rt = rt();
 	crate::panics::clear_local();
 	rt.block_on(async {
-		let mut mc = MockClient::new(ClientCfg { id_kind: case.id_kind, sub_buffer: cap, mw_last: case.cap % 3 == 0, ..ClientCfg::default() });
+		let mut mc = MockClient::new(ClientCfg { id_kind: case.id_kind, sub_buffer: cap, mw_last: case.cap % 3 == 0, ws_builder: case.cap % 2 == 1, ..ClientCfg::default() });
 		let mut subs: Vec<MSub> = vec![];
 		let mut item_no = 0u64;
 		let mut pending_msgs: Vec<Value> = vec![];
@@ -467,6 +467,10 @@ pub struct FullQueueCase {
 	/// the application calls `unsubscribe()` instead of dropping the stream
 	#[serde(default)]
 	pub explicit: bool,
+	/// the stream is kept, and while the queue is full the server pushes more than the buffer holds: the
+	/// subscription is closed for lagging by the client itself
+	#[serde(default)]
+	pub lag: bool,
 }
 
 pub struct DroppedWithFullQueue;
@@ -474,7 +478,7 @@ pub struct DroppedWithFullQueue;
 /// returns (number of unsubscribe requests naming the id, table sizes after the unsubscribe was acknowledged)
 pub async fn full_queue_scenario(case: &FullQueueCase, fails: &mut Vec<(String, String)>) -> (usize, Option<[usize; 4]>, bool) {
 	use jsonrpsee_core::client::ClientT;
-	let mut mc = MockClient::new(ClientCfg { id_kind: case.id_kind, sub_buffer: case.cap.max(1) as usize, max_concurrent_requests: 1, ping: false, mw_last: case.pushes_after % 2 == 0 });
+	let mut mc = MockClient::new(ClientCfg { id_kind: case.id_kind, sub_buffer: case.cap.max(1) as usize, max_concurrent_requests: 1, ping: false, mw_last: case.pushes_after % 2 == 0, ws_builder: case.before % 2 == 1 });
 	let c = mc.client.clone();
 	let h = tokio::spawn(async move { c.subscribe::<Value, _>("sub", rpc_params![], "unsub").await });
 	settle().await;
@@ -509,6 +513,58 @@ pub async fn full_queue_scenario(case: &FullQueueCase, fails: &mut Vec<(String, 
 	settle().await;
 	// the application lets go of the stream now: the notice to the background task does not fit into the queue
 	let mut unsub_task = None;
+	if case.lag {
+		// more pushes than the buffer holds, while the read task cannot hand its close notice to the send task
+		let cap = case.cap.max(1) as u64;
+		for k in 0..cap + 2 {
+			mc.push_text(notif(50 + k).to_string());
+		}
+		settle().await;
+		mc.shared.gates.open("g");
+		settle().await;
+		let wire = mc.wire_all();
+		for m in ["call_a", "call_b"] {
+			if let Some(id) = wire_id_of(&wire, m) {
+				mc.push_text(json!({"jsonrpc":"2.0","id":id,"result":0}).to_string());
+			}
+		}
+		settle().await;
+		let _ = (ta.now_or_never(), tb.now_or_never());
+		let count = mc.wire_all().iter().filter(|m| m["method"] == json!("unsub") && m["params"] == json!([sid])).count();
+		if count != 1 {
+			fails.push(("c05/lagging-stream-unsubscribe-count".into(), format!("{count} unsubscribe requests for a subscription that lagged while the request queue was full")));
+		}
+		// the stream yields what was buffered and then ends
+		let mut yielded = 0;
+		loop {
+			match stream.next().now_or_never() {
+				Some(Some(Ok(_))) => yielded += 1,
+				Some(None) => break,
+				Some(Some(Err(e))) => {
+					fails.push(("c05/lagging-stream-yielded-error".into(), format!("{e:?}")));
+					break;
+				}
+				None => {
+					fails.push(("c05/lagging-stream-never-ends".into(), format!("after {yielded} items the stream is pending although the subscription lagged")));
+					break;
+				}
+			}
+		}
+		if let Some(uid) = wire_id_of(&mc.wire_all(), "unsub") {
+			mc.push_text(json!({"jsonrpc":"2.0","id":uid,"result":true}).to_string());
+		}
+		settle().await;
+		drop(stream);
+		settle().await;
+		#[cfg(feature = "hooks")]
+		let sizes = Some(mc.client.verif_table_sizes());
+		#[cfg(not(feature = "hooks"))]
+		let sizes = None;
+		if !mc.client.is_connected() {
+			fails.push(("c05/client-disconnected".into(), format!("{:?}", mc.shared.events.lock())));
+		}
+		return (count, sizes, false);
+	}
 	if case.explicit {
 		// an explicit unsubscribe waits for room in the queue instead
 		unsub_task = Some(tokio::spawn(async move { stream.unsubscribe().await.is_ok() }));
@@ -574,8 +630,8 @@ impl SubCheck for DroppedWithFullQueue {
 		tier.pick(3_000, 60_000)
 	}
 	fn strategy(&self, _tier: Tier) -> BoxedStrategy<FullQueueCase> {
-		(0u8..3, 1u8..4, any::<bool>(), any::<bool>(), prop_oneof![Just(IdK::Number), Just(IdK::String)], 1u8..4, proptest::bool::weighted(0.35))
-			.prop_map(|(before, pushes_after, packed, string_sub_id, id_kind, cap, explicit)| FullQueueCase { before, pushes_after, packed, string_sub_id, id_kind, cap, explicit })
+		(0u8..3, 1u8..4, any::<bool>(), any::<bool>(), prop_oneof![Just(IdK::Number), Just(IdK::String)], 1u8..4, prop_oneof![4 => Just(0u8), 3 => Just(1u8), 3 => Just(2u8)])
+			.prop_map(|(before, pushes_after, packed, string_sub_id, id_kind, cap, mode)| FullQueueCase { before, pushes_after, packed, string_sub_id, id_kind, cap, explicit: mode == 1, lag: mode == 2 })
 			.boxed()
 	}
 	fn run(&self, case: &FullQueueCase, obs: &mut Obs) {
@@ -583,7 +639,10 @@ impl SubCheck for DroppedWithFullQueue {
 		rt.block_on(async {
 			let mut fails = vec![];
 			let (n, _sizes, lost) = full_queue_scenario(case, &mut fails).await;
-			if case.explicit {
+			if case.lag {
+				obs.nontrivial();
+				obs.class("lagging-with-full-queue");
+			} else if case.explicit {
 				obs.nontrivial();
 				obs.class("explicit-unsubscribe-with-full-queue");
 			} else if lost {
